@@ -43,6 +43,7 @@ SimNext ==
     \/ Live /\ Len(hist) % 7 = 3 /\ Restart /\ hist' = Append(hist, [op |-> "restart"])
     \/ Live /\ pool # {} /\ (relay => Len(hist) % 8 = 5) /\ \E b \in BOOLEAN : Relay(b) /\ hist' = Append(hist, [op |-> "relay", ok |-> b])
     \/ MainLoop /\ UNCHANGED hist
+    \/ MainLoopRace /\ UNCHANGED hist
     \/ TxDone /\ UNCHANGED hist
     \/ TxTake /\ hist' = IF log' # log \/ fly' # fly
                          THEN Append(hist, [op |-> "sent", kind |-> fly'.k, main |-> fly'.m, req |-> fly'.r, ret |-> fly'.res])
